@@ -52,8 +52,9 @@ finally:
   subprocess.run(['git', '-C', '/repo', 'worktree', 'remove', '--force', wt])
 dst = f'/verif/seeded/{sid}'
 os.makedirs(dst, exist_ok=True)
-shutil.copy(os.path.join(src, 'patch.diff'), dst + '/patch.diff')
-shutil.copy(os.path.join(src, 'demo.py'), dst + '/demo.py')
+if os.path.realpath(src) != os.path.realpath(dst):
+  shutil.copy(os.path.join(src, 'patch.diff'), dst + '/patch.diff')
+  shutil.copy(os.path.join(src, 'demo.py'), dst + '/demo.py')
 meta = json.load(open(os.path.join(src, 'meta.json'))) if os.path.exists(os.path.join(src, 'meta.json')) else {}
 meta['breaks_property'] = prop
 meta['confirmed_by_lead'] = res
